@@ -92,12 +92,17 @@ def sqlite_restore(tier):
         conds = []
         for g in gs:
             m = re.match(r'^(!)?\s*(\w+)$', g)
-            if not m or m.group(2) not in lets:
-                raise S.SqlError(f'guard not understood: if {g}')
-            rhs = lets[m.group(2)]
+            if m and m.group(2) in lets:
+                rhs = lets[m.group(2)]
+            else:
+                # the condition written in place instead of through a `let`
+                m = re.match(r'^(!)?\s*(snapshot_rows\s*\.iter\(\).*)$', g, re.S)
+                if not m:
+                    raise S.SqlError(f'guard not understood: if {g}')
+                rhs = re.sub(r'\s+', ' ', m.group(2))
             mm = re.search(r'snapshot_rows\s*\.iter\(\)\s*\.any\(\s*\|[^|]*\|\s*\*?\w+\s*==\s*"(\w+)"\s*\)', rhs)
             if not mm:
-                raise S.SqlError(f'guard binding not understood: let {m.group(2)} = {rhs}')
+                raise S.SqlError(f'guard binding not understood: {rhs}')
             tbl = mm.group(1)
             snap.setdefault(tbl, [dict(p=z3.Bool(f'snap_{tbl}_{i}_p'), g=z3.BoolVal(True), n=z3.BoolVal(False)) for i in range(N)])
             has = z3.Or([x['p'] for x in snap[tbl]])
